@@ -216,7 +216,10 @@ struct Dim {
   }
 
   static void run(std::ostream& os, const std::string& crit, const std::vector<double>& p, const S& s) {
-    const double seps = 1e-12 * std::max(smax(s), 1e-300);
+    const double seps0 = 1e-12 * std::max(smax(s), 1e-300);
+    // eigen-based criteria: the default eigen-solver returns a double eigenvalue with ~1e-8 relative accuracy, so the
+    // coalescence threshold must be above that for the eps branches of the second derivatives to be taken
+    const double seps = (crit == "hosford" || crit == "hosford_int" || crit == "barlat") ? 1e-7 * std::max(smax(s), 1e-300) : seps0;
     Crit c;
     if (crit == "hosford" || crit == "hosford_int") {
       const double a = p[0];
